@@ -514,17 +514,22 @@ class Explorer:
                 else:
                     if cache is not None:
                         key = w.state_key()
+                        if self.budget[0] >= 99:
+                            # unbounded preemptions: the cost of reaching a state is irrelevant
+                            cost_k = (0, cost[1])
+                        else:
+                            cost_k = cost
                         seen = cache.get(key)
                         if seen is not None and any(
-                            c[0] <= cost[0] and c[1] <= cost[1] for c in seen
+                            c[0] <= cost_k[0] and c[1] <= cost_k[1] for c in seen
                         ):
                             x.pruned = True
                             break
                         if seen is None:
-                            cache[key] = [cost]
+                            cache[key] = [cost_k]
                         else:
-                            seen[:] = [c for c in seen if not (cost[0] <= c[0] and cost[1] <= c[1])]
-                            seen.append(cost)
+                            seen[:] = [c for c in seen if not (cost_k[0] <= c[0] and cost_k[1] <= c[1])]
+                            seen.append(cost_k)
                     k = 0
                     self.transitions += 1
                 oc = [w.option_cost(o, last_enabled) for o in opts]
